@@ -382,6 +382,7 @@ func (rm *room) pickPrevs() []string {
 
 func (rm *room) step(i int) {
 	r, t := rm.r, rm.t
+	t.Mark()
 	prevs := rm.pickPrevs()
 	before := rm.stateAt(prevs)
 	actor := sim.Pick(t, rm.users)
